@@ -427,6 +427,15 @@ def impl_flags():
 
 
 def run_case(case, M, tier="quick"):
+    """_run_case, except that programs nested deeper than the recursion limit of the wire code
+    (recursive grammars with a nearly free unary rule: f(f(f(...)))) make the case inconclusive"""
+    try:
+        return _run_case(case, M, tier)
+    except RecursionError:
+        return {"trivial": "programs-too-deep-for-the-wire"}
+
+
+def _run_case(case, M, tier="quick"):
     from synth.syntax.grammars.tagged_det_grammar import ProbDetGrammar
     from synth.syntax.grammars.enumeration.constant_delay import enumerate_prob_grammar
     g = build(case)
